@@ -1188,8 +1188,13 @@ def unary_fn(t, fn):
 
 
 def power(t, p):
-    if isinstance(p, int) and p == 2:
+    if isinstance(p, int) and not isinstance(p, bool) and p == 2:
         return binary('mul', t, t)
+    if isinstance(p, (int, float)):
+        # value-abstract result (only shape / dtype / autograd tags are tracked)
+        dt = t.dtype if t.dtype in FLOATS + COMPLEX else DEFAULT_FLOAT
+        out = STensor(list(t.axes), dt, None, lib=t.lib)
+        return derive(out, t)
     raise OutOfSubset('tensor ** %r' % (p,))
 
 
